@@ -124,7 +124,7 @@ def _build(macro, p, q):
 
 
 @as_macro_node("r0", "r1", validate_output_labels=False)
-def MacU(self, p="mp", q="mq"):
+def MacU(self, p=3, q=4):
     return _build(self, p, q)
 
 
